@@ -208,7 +208,8 @@ def stmtToAsgStmt : Nat → Ast.Stmt → M (Option Stmt)
 def caseExprsLoop : Nat → List Ast.CaseExpr → M (List CaseExpr)
   | 0, _ => throw .fuel
   | _+1, [] => pure []
-  | fuel+1, (.mk _ expressionList blockExpr) :: rest => do
+  | fuel+1, c :: rest => do
+    let (.mk _ expressionList blockExpr) := c
     let el ← unwrap "stmt_to_asg_stmt: CaseExpr expression_list() is None" expressionList
     let intExprs ← expressionListToAsgTexpr fuel el
     let statements ← withScope .localS do
@@ -268,13 +269,15 @@ def modifiersLoop : Nat → List Ast.Modifier → M (List GateModifier)
 /-- `paren_expr_to_asg_texpr` -/
 def parenExprToAsgTexpr : Nat → Ast.ParenExpr → M (Option TExpr)
   | 0, _ => throw .fuel
-  | fuel+1, .mk _ expr => exprToAsgTexpr fuel expr
+  | fuel+1, p =>
+    match p with
+    | .mk _ expr => exprToAsgTexpr fuel expr
 
 /-- `expr_to_asg_texpr` -/
 def exprToAsgTexpr : Nat → Option Ast.Expr → M (Option TExpr)
   | 0, _ => throw .fuel
-  | _+1, none => pure none                                   -- `let expr = expr_maybe?;`
-  | fuel+1, some expr => do
+  | fuel+1, exprMaybe => do
+    let some expr := exprMaybe | pure none                   -- `let expr = expr_maybe?;`
     match expr with
     | .prefixExpr _ opKind operand =>
       match opKind with
@@ -395,14 +398,16 @@ def exprToAsgTexpr : Nat → Option Ast.Expr → M (Option TExpr)
 /-- `set_expression_to_asg_type` (the `SetExpression`'s vector) -/
 def setExpressionToAsgType : Nat → Ast.SetExpression → M (List TExpr)
   | 0, _ => throw .fuel
-  | fuel+1, .mk _ expressionList => do
+  | fuel+1, se => do
+    let (.mk _ expressionList) := se
     let el ← unwrap "set_expression_to_asg_type: expression_list() is None" expressionList
     expressionListToAsgTexpr fuel el
 
 /-- `range_expression_to_asg_type`: (start, step, stop); evaluation order start, stop, step -/
 def rangeExpressionToAsgType : Nat → Ast.RangeExpr → M (TExpr × Option TExpr × TExpr)
   | 0, _ => throw .fuel
-  | fuel+1, .mk _ start step stop => do
+  | fuel+1, re => do
+    let (.mk _ start step stop) := re
     let start ← exprToAsgTexpr fuel start
     let start ← unwrap "range_expression_to_asg_type: start unwrap() on None" start
     let stop ← exprToAsgTexpr fuel stop
@@ -413,7 +418,8 @@ def rangeExpressionToAsgType : Nat → Ast.RangeExpr → M (TExpr × Option TExp
 /-- `gate_call_expr_to_asg_stmt` -/
 def gateCallExprToAsgStmt : Nat → Ast.GateCallExpr → List GateModifier → M (Option Stmt)
   | 0, _, _ => throw .fuel
-  | fuel+1, .mk span qubitList argList identifier, modifiers => do
+  | fuel+1, gc, modifiers => do
+    let (.mk span qubitList argList identifier) := gc
     let gateOperands ← qubitListToAsgTexpr fuel qubitList
     let paramList ← match argList with
       | some (.mk _ el) => do
@@ -467,7 +473,8 @@ def gateOperandToAsgTexpr : Nat → Ast.GateOperand → M TExpr
 /-- `index_operator_to_asg_type` -/
 def indexOperatorToAsgType : Nat → Ast.IndexOperator → M IndexOperator
   | 0, _ => throw .fuel
-  | fuel+1, .mk _ indexKind => do
+  | fuel+1, io => do
+    let (.mk _ indexKind) := io
     match ← unwrap "index_operator_to_asg_type: index_kind() is None" indexKind with
     | .setExpression setExpression =>
       pure (.setExpression (← setExpressionToAsgType fuel setExpression))
@@ -498,7 +505,9 @@ def gateOperandsLoop : Nat → List Ast.GateOperand → M (List TExpr)
 /-- `expression_list_to_asg_texpr` -/
 def expressionListToAsgTexpr : Nat → Ast.ExpressionList → M (List TExpr)
   | 0, _ => throw .fuel
-  | fuel+1, .mk _ exprs => exprsLoop fuel exprs
+  | fuel+1, el =>
+    match el with
+    | .mk _ exprs => exprsLoop fuel exprs
 
 /-- the `exprs().filter_map(..).collect()` of `expression_list_to_asg_texpr` -/
 def exprsLoop : Nat → List Ast.Expr → M (List TExpr)
@@ -514,7 +523,9 @@ def exprsLoop : Nat → List Ast.Expr → M (List TExpr)
 /-- `block_expr_to_asg_stmt_list` -/
 def blockExprToAsgStmtList : Nat → Ast.BlockExpr → M (List Stmt)
   | 0, _ => throw .fuel
-  | fuel+1, .mk _ statements => stmtsLoop fuel statements
+  | fuel+1, b =>
+    match b with
+    | .mk _ statements => stmtsLoop fuel statements
 
 /-- the `statements().filter_map(..).collect()` of `block_expr_to_asg_stmt_list` -/
 def stmtsLoop : Nat → List Ast.Stmt → M (List Stmt)
@@ -633,7 +644,8 @@ def assignmentStmtToAsgStmt : Nat → Ast.Span → Option Ast.Identifier → Opt
 /-- `indexed_identifier_to_asg_type` -/
 def indexedIdentifierToAsgType : Nat → Ast.IndexedIdentifier → M (IndexedIdentifier × T)
   | 0, _ => throw .fuel
-  | fuel+1, .mk span identifier indexOperators => do
+  | fuel+1, ii => do
+    let (.mk span identifier indexOperators) := ii
     let identifier ← unwrap "indexed_identifier_to_asg_type: identifier() is None" identifier
     let (symbolId, typ) ← lookupSymbol identifier.text span
     let indexes ← indexOperatorsLoop fuel indexOperators
